@@ -569,11 +569,12 @@ def run(chk, replay=None):
     signal.signal(signal.SIGALRM, on_alarm)
     budget = 8 if quick else 12      # seconds per Lcapy transform (SymPy integrate fall-backs can take minutes)
 
-    def lcapy_value(e, smp, xs, zic):
-        """Lcapy's transform of the lcapy expression e, sampled -> (re, im) | None ; raises on Lcapy error"""
+    def lcapy_value(e, smp, xs, zic, call=None):
+        """Lcapy's transform of the lcapy expression e, sampled -> (re, im) | None ; raises on Lcapy error.
+        `call`: another route through the API (e -> Lcapy s-domain expression); `zic` is then the option value in effect"""
         signal.alarm(budget)
         try:
-            r = e.laplace(zero_initial_conditions=zic).sympy
+            r = (call(e) if call is not None else e.laplace(zero_initial_conditions=zic)).sympy
         finally:
             signal.alarm(0)
         if r.has(S.Integral) or r.has(S.Limit):
@@ -849,6 +850,61 @@ def run(chk, replay=None):
         if not quick and not slow_now:
             timed_case(terms, 'generated-second-point')
 
+    # ---- 3b'. every option of the transform API x every value of its session default (lcapy.state) x every route:
+    #           an explicit option wins, None means the session default.  (zero_initial_conditions is the only transform option
+    #           with a session default; `evaluate` has none.)  The value must be the transform for the option value IN EFFECT.
+    if not replay:
+        from lcapy import state as lstate
+        routes = [('laplace', lambda e, kw: e.laplace(**kw)), ('LT', lambda e, kw: e.LT(**kw)), ('call', lambda e, kw: e(ls, **kw))]
+        saved_default = lstate.zero_initial_conditions
+        try:
+            for n in (1, 2):
+                for default in (False, True):
+                    for opt in (None, False, True):
+                        for (rname, rfn) in routes:
+                            effective = default if opt is None else opt
+                            xs = XSIGS_IC[(n + int(default)) % 2] if not effective else XSIGS[n % 2]
+                            c = g2.coef()
+                            terms = [('dundef %s %d' % (fstr(c), n), '(%s)*Derivative(x(t), t, %d)' % (c, n),
+                                      {'kind': 'undef', 'sub': 'deriv', 'order': n}),
+                                     ('prod 1 exp -2', '(1)*exp((-2)*t)', {'kind': 'polyexp'})]
+                            txt = ' + '.join(atext(t[1]) for t in terms)
+                            kw = {} if opt is None else {'zero_initial_conditions': opt}
+                            smp = Sampler(rng, S)
+                            chk.count('api-options', 'route=%s default=%s explicit=%s' % (rname, default, opt))
+                            lstate.zero_initial_conditions = default
+                            try:
+                                v = lcapy_value(lexpr(txt), smp, xs, effective, call=lambda e: rfn(e, kw))
+                            except Exception as ex:   # noqa
+                                chk.case(('api', txt, rname, default, opt), False)
+                                chk.count('degenerate', 'api-error:' + type(ex).__name__)
+                                continue
+                            finally:
+                                lstate.zero_initial_conditions = saved_default
+                            if v in (None, 'unevaluated', 'has-t'):
+                                chk.case(('api', txt, rname, default, opt), False)
+                                chk.count('degenerate', 'api-not-sampled')
+                                continue
+                            model, spec, brs = ask_terms(terms, smp, xs, effective)
+                            chk.case(('api', txt, rname, default, opt), spec is not None)
+                            if model is not None:
+                                chk.coverage['correspondence']['compared'] += 1
+                                if model != v:
+                                    chk.coverage['correspondence']['disagreements'] += 1
+                                    disagreements.append({'expr': txt, 'route': rname, 'state_default': default, 'explicit': str(opt),
+                                                          'lcapy': [fstr(v[0]), fstr(v[1])], 'model': [fstr(model[0]), fstr(model[1])]})
+                            if spec is not None and spec != v:
+                                counterexamples[0] += 1
+                                chk.counterexample({'kind': 'api-option', 'option': 'zero_initial_conditions', 'route': rname,
+                                                    'state_default': default, 'explicit': str(opt)},
+                                                   {'input': {'expr': txt, 'route': rname, 'state.zero_initial_conditions': default,
+                                                              'explicit_option': str(opt), 's': fstr(smp.s), 'A': fstr(smp.A)},
+                                                    'lcapy': [fstr(v[0]), fstr(v[1])], 'spec_value': [fstr(spec[0]), fstr(spec[1])],
+                                                    'spec': 'the transform for the option value in effect (explicit option, else the session default): '
+                                                            'with initial conditions s^n X - sum s^(n-m-1) x^(m)(0-), without them s^n X'},
+                                                   'explicit transform option / session default not honoured (route %s)' % rname)
+        finally:
+            lstate.zero_initial_conditions = saved_default
     # ---- 3c. error paths and API entry points (no value to judge: the property speaks of returned closed forms); counted only
     if not replay:
         err_inputs = ['x(t)*y(t)', 't*x(t)', 'x(t)*exp(1 - t)', 'sin(s*t)', 'Integral(x(tau), (tau, 1, t))', 'Integral(x(tau), tau)',
